@@ -148,6 +148,10 @@ def cli_cases(ctx, n):
                 q2 = [ns - 1 if c == "G" else x for c, x in zip(s, q)]
                 stop = spec3(q2, ns)
                 a, b = spec_qtrim(q[:stop], cf, cb)
+            elif mode == "q1" and cb == 0:
+                # a literal cutoff "0" switches quality trimming off (documented for `-Q 0`; `make_quality_trimmers` builds no trimmer),
+                # also for reads with negative quality values; `-q 0,0` does build one
+                a, b = 0, len(s)
             else:
                 a, b = spec_qtrim(q, cf, cb)
             removed += len(s) - (b - a)
